@@ -41,8 +41,11 @@ EXCLUSIONS = [
     ('MySQLHandshakeV10', 'server_version=str:nonascii', 'NUL-terminated ASCII string'),
     ('MySQLHandshakeV10', 'server_version=str:nul', 'string<NUL>: the value cannot contain the terminator'),
     ('MySQLHandshakeV10', 'auth_plugin_name=*', 'present exactly when CLIENT_PLUGIN_AUTH is set'),
-    ('MySQLHandshakeV10', 'auth_plugin_data_2=*', 'present exactly when CLIENT_PLUGIN_AUTH is set; length tied to '
-                                                   'auth_plugin_data_len'),
+    ('MySQLHandshakeV10', 'auth_plugin_data_2=None', 'present exactly when CLIENT_PLUGIN_AUTH is set'),
+    ('MySQLHandshakeV10', 'auth_plugin_data_2=opt:*', 'present exactly when CLIENT_PLUGIN_AUTH is set'),
+    ('MySQLHandshakeV10', 'auth_plugin_data_2=bytes:empty', 'an empty part 2 is written as absent'),
+    ('MySQLHandshakeV10', 'auth_plugin_data_2=bytes:len2*', 'auth_plugin_data_len is one octet (8 + part 2 <= 255)'),
+    ('MySQLHandshakeV10', 'auth_plugin_data_2=bytes:len[136]*', 'auth_plugin_data_len is one octet'),
     ('MySQLHandshakeV10', 'capabilities=set:*PLUGIN_AUTH', 'toggles the presence of the auth-plugin fields'),
     ('MySQLHandshakeV10', 'capabilities=set:all', 'toggles the presence of the auth-plugin fields'),
     ('MySQLHandshakeV10', 'capabilities=set:empty', 'toggles the presence of the auth-plugin fields'),
